@@ -95,6 +95,7 @@ def enc_gen_replay(rep, name, alphabet, table, maxlen, strict=True, quick=True, 
         if r.violated:
             rep.violation("specification-level: %s violated in %s" % (r.violated, name), {"errors": r.errors[:2]})
     allowed = group_allowed(vectors)
+    del vectors[:]                      # millions of records at the thorough bounds: only the grouped form is kept
     items = list(allowed.items())
     rep.configs.append({"config": name, "alphabet": alphabet, "table": tabname(table), "max_tokens": maxlen,
                         "strict": strict, "distinct_states": st, "inputs": len(items),
@@ -106,6 +107,7 @@ def enc_gen_replay(rep, name, alphabet, table, maxlen, strict=True, quick=True, 
     bad = []
     for part in de.pmap(_enc_replay_chunk, [(c, table, strict) for c in de.chunked(items, nch)]):
         bad.extend(part)
+    DEC_OF.clear()                      # per configuration: the workers have used it
     rep.traces += len(items)
     for s, al in items:
         rep.case((name, s), nontrivial=any(k == "ok" for k, _ in al))
